@@ -1,5 +1,6 @@
 """C07 - an error response always surfaces as a classified exception carrying its code."""
 from harness.sm import *  # noqa
+from symcheck.env import Ticks  # noqa
 from harness import sm
 from harness.h_C01 import HELPERS, helper_args, BOOL_HELPERS, REF_NON_RETRYABLE, _Lazy, _LazyErr, _LazyList2, expected_method
 
@@ -112,7 +113,7 @@ def process_nocode():
 def api(code, dsel, leaf):
     """(c) through send_message: matching error with symbolic code after a distractor."""
     script = [(1, build(K_NOTIF, 0, "rid-1")), (2, _err_msg(code, 0, "", dsel, leaf, "rid-1"))]
-    out = run_stub(script, lambda r, w: SM.send_message(r, w, "m", None, timeout=100, message_id="rid-1"))
+    out = run_stub(script, lambda r, w: SM.send_message(r, w, "m", None, timeout=Ticks(100), message_id="rid-1"))
     return _judge_exc(out, code, "E")
 
 
@@ -120,7 +121,7 @@ def helper(name, code):
     fn = HELPERS[name]
     kw = helper_args(fn)
     items = [(1, _Lazy(K_SAMEID_REQ, 0)), (2, _LazyErr(code))]
-    out = run_stub(_LazyList2(items), lambda r, w: fn(r, w, timeout=100, **kw))
+    out = run_stub(_LazyList2(items), lambda r, w: fn(r, w, timeout=Ticks(100), **kw))
     if name in BOOL_HELPERS:
         if out.kind != "result" or out.value is not False:
             return "bool-helper-did-not-report-false:" + str(out.kind)
